@@ -209,6 +209,12 @@ def _benign_nonconst(ce):
 
 
 # ------------------------------------------------------------------------------------------------
+def _p2_props(rel):
+    # static storage anywhere in the library matters to thread safety, history independence and framing invariance; the
+    # converters' own files additionally to C08 (two converters that share a work buffer are not two converters)
+    return ["C06", "C09", "C10"] + (["C08"] if "resample" in rel else [])
+
+
 def rule_P2(prog, fixture=False):
     res = RuleResult("P2", "every variable with static storage duration defined in the library is constexpr, const, "
                            "thread_local or a synchronisation primitive; no function-local static or namespace-scope "
@@ -222,17 +228,18 @@ def rule_P2(prog, fixture=False):
         name = s["name"] + ((" in " + s["func"]) if s.get("func") else "")
         okey = "P2:" + s["name"] + (("@" + s["func"]) if s.get("func") else "")
         ct = s["ctype"]
+        px = {"props": _p2_props(prog.rel(s["file"]))}
         if s["constexpr"]:
-            res.add(okey, DISCHARGED, where, name, "constexpr")
+            res.add(okey, DISCHARGED, where, name, "constexpr", extra=px)
         elif s["tls"]:
-            res.add(okey, DISCHARGED, where, name, "thread_local (%s)" % s["type"], extra={"tls": True})
+            res.add(okey, DISCHARGED, where, name, "thread_local (%s)" % s["type"], extra=dict(px, tls=True))
         elif SYNC_TYPES.search(ct):
-            res.add(okey, DISCHARGED, where, name, "synchronisation primitive")
+            res.add(okey, DISCHARGED, where, name, "synchronisation primitive", extra=px)
         elif s["const"] and not (s.get("indirect") and not s.get("pointee_const")):
-            res.add(okey, DISCHARGED, where, name, "const-qualified object, initialised once (thread-safe static init)")
+            res.add(okey, DISCHARGED, where, name, "const-qualified object, initialised once (thread-safe static init)", extra=px)
         else:
             res.add(okey, VIOLATED, where, name,
-                    "mutable object of type %s with static storage duration is shared by all threads" % s["type"])
+                    "mutable object of type %s with static storage duration is shared by all threads" % s["type"], extra=px)
     # P2d: a function-local static / thread_local is initialised once, by whichever call comes first
     for key, s in sorted(prog.statics.items(), key=lambda kv: (kv[1]["file"], kv[1]["line"])):
         if not s.get("static_local") or s["file"].endswith("coverage.cc"):
@@ -240,14 +247,15 @@ def rule_P2(prog, fixture=False):
         okey = "P2d:" + s["name"] + "@" + (s.get("func") or "")
         where = "%s:%d" % (prog.rel(s["file"]), s["line"])
         name = "%s in %s" % (s["name"], s.get("func"))
+        px = {"props": _p2_props(prog.rel(s["file"]))}
         if s.get("init_uses_this") or s.get("init_uses_param"):
             res.add(okey, VIOLATED, where, name,
                     "the initialiser (%s) depends on %s, but a function-local %s object is initialised only by the first call: later "
                     "calls with other values (another object, another argument) silently reuse the first one"
                     % (s.get("init_text"), "the object (this)" if s.get("init_uses_this") else "the arguments of the call",
-                       "thread_local" if s["tls"] else "static"))
+                       "thread_local" if s["tls"] else "static"), extra=px)
         else:
-            res.add(okey, DISCHARGED, where, name, "initialiser is independent of the call (%s)" % (s.get("init_text") or "default"))
+            res.add(okey, DISCHARGED, where, name, "initialiser is independent of the call (%s)" % (s.get("init_text") or "default"), extra=px)
     res.stats["static_objects"] = n
     res.stats["thread_local"] = sorted(o.what for o in res.obs if o.extra.get("tls"))
     return res
@@ -644,4 +652,189 @@ def rule_P4(prog, fixture=False):
             "no function reaches one of the %d tabulated non-reentrant C routines through external code" % len(NON_REENTRANT) if not hits
             else "%d function(s) reach a non-reentrant C routine" % hits, extra={"props": ["C09"]})
     res.stats["functions"] = n_funcs
+    return res
+
+
+# ------------------------------------------------------------------------------------------------
+# M1: a value kept in static storage between calls is keyed by everything it was computed from
+_M1_SIZE = {"size", "empty", "length"}
+
+
+def _m1_props(rel):
+    out = ["C10"]
+    if rel.startswith("lib/fft/") or rel.endswith(("stft.cpp", "fft.cpp", "ifft.cpp", "czt.cpp")):
+        out.append("C02")
+    if rel.endswith(("snr.cpp", "awgn.cpp", "random.cpp", "thd.cpp", "sinad.cpp")):
+        out.append("C19")
+    if "lib/resample/" in rel or rel.endswith("resample.cpp"):
+        out.append("C08")
+    if rel.endswith(("window.cpp", "fir.cpp")):
+        out.append("C11")
+    return out
+
+
+def _m1_key_atoms(f, expr, static_id, defs, seen):
+    """parameters (and members) a condition mentions, through the locals it is written with; the kept object itself is skipped"""
+    out = set()
+    for x in expr.walk():
+        if x.k == "MemberExpr" and x.decl and x.decl.get("k") == "field" and x.c and x.c[0].strip_all().k == "CXXThisExpr":
+            out.add(("this", x.decl["n"], "val"))
+            continue
+        if x.k != "DeclRefExpr" or not x.decl:
+            continue
+        d = x.decl
+        k = d.get("k")
+        if k == "parm":
+            from .flow import is_container_type
+            if is_container_type(d.get("dt", "")):
+                p = x.parent
+                while p is not None and p.k in ("ImplicitCastExpr", "ParenExpr"):
+                    p = p.parent
+                size_only = (p is not None and p.k == "MemberExpr" and p.decl and p.decl.get("n") in _M1_SIZE)
+                out.add(("parm", d["n"], "size"))
+                if not size_only:
+                    out.add(("parm", d["n"], "content"))
+            else:
+                out.add(("parm", d["n"], "val"))
+        elif k in ("local", "binding") and d.get("id") != static_id and d.get("id") not in seen:
+            seen.add(d["id"])
+            for e in defs.get(d["id"], ()):
+                out |= _m1_key_atoms(f, e, static_id, defs, seen)
+    return out
+
+
+def rule_M1(prog, fixture=False):
+    res = RuleResult("M1", "a value that a function keeps in static / thread_local storage and computes again only under a condition "
+                           "is keyed by everything it was computed from: every argument (scalar, element count or contents of a "
+                           "container) the stored value may depend on is mentioned by a condition that decides whether it is "
+                           "computed again - otherwise a later call with another argument is answered with the earlier result")
+    from .flow import ACCESS_METHODS, OUTPUT_ITERATOR_RESULT
+    nfun = 0
+    for f in sorted(prog.functions.values(), key=lambda g: (g.file, g.line)):
+        if not f.blocks or f.entry is None:
+            continue
+        statics = {}
+        for n in f.walk():
+            if n.k == "DeclRefExpr" and n.decl and n.decl.get("k") == "global" and n.decl.get("repo") and not n.decl.get("constq"):
+                statics.setdefault(n.decl.get("qn", n.decl["n"]), n.decl)
+        if not statics or not f.params:
+            continue
+        flow = None
+        defs = {}
+        for n in f.walk():
+            if n.k == "VarDecl" and n.c and n.decl:
+                defs.setdefault(n.decl["id"], []).append(n.c[0])
+            elif n.k in ("BinaryOperator", "CompoundAssignOperator") and n.op and n.op.endswith("=") and n.op not in ("==", "!=", "<=", ">=") and len(n.c) == 2:
+                l0 = n.c[0].strip_all()
+                if l0.k == "DeclRefExpr" and l0.decl and l0.decl.get("k") == "local":
+                    defs.setdefault(l0.decl["id"], []).append(n.c[1])
+        for qn, d in sorted(statics.items()):
+            if re.search(r"mt19937|mersenne_twister|linear_congruential|minstd|ranlux|default_random_engine|_distribution<|std::(mutex|atomic|once_flag)", d.get("dt", "")):
+                continue
+            if flow is None:
+                flow = Flow(f, prog, control=False)
+            writes = []       # (node, value expressions)
+            for n in f.walk():
+                tgt, vals = None, []
+                if n.k in ("BinaryOperator", "CompoundAssignOperator") and n.op and n.op.endswith("=") and n.op not in ("==", "!=", "<=", ">=") and len(n.c) == 2:
+                    tgt, vals = n.c[0], [n.c[1]]
+                elif n.k == "CXXOperatorCallExpr" and n.op and n.op.endswith("=") and n.op not in ("==", "!=", "<=", ">=") and len(n.c) >= 3:
+                    tgt, vals = n.c[1], [n.c[2]]
+                elif n.is_call() and n.callee:
+                    ce = n.callee
+                    obj = n.call_object()
+                    args = n.call_args()
+                    pm = ce.get("pm", [])
+                    wq = ce.get("qn", "")
+                    if (obj is not None and "cls" in ce and not ce.get("const") and n.k != "CXXConstructExpr"
+                            and wq.rsplit("::", 1)[-1] not in ACCESS_METHODS and ("global", qn) in flow.root(obj)):
+                        tgt, vals = obj, list(args)
+                    else:
+                        cands = [a for i, a in enumerate(args) if (pm[i] if i < len(pm) else "val") in ("ref", "ptr")]
+                        if wq in OUTPUT_ITERATOR_RESULT and args:
+                            cands.append(args[-1] if OUTPUT_ITERATOR_RESULT[wq] == "last" else args[0])
+                        for a in cands:
+                            if ("global", qn) in flow.root(a):
+                                tgt, vals = a, [b for b in args if b.id != a.id]
+                                break
+                if tgt is None or ("global", qn) not in flow.root(tgt):
+                    continue
+                if f.block_of(n) is None:
+                    continue
+                writes.append((n, vals))
+            if not writes:
+                continue
+            nfun += 1
+            rel = prog.rel(f.file)
+            key = "M1:%s:%s" % (f.name.replace("(anonymous namespace)::", "").split("(")[0], d["n"])
+            if any(o.key == key for o in res.obs):
+                key = "M1:%s:%s" % (fkey(f), d["n"])
+            where = "%s:%d" % (rel, writes[0][0].line)
+            what = "%s in %s" % (d["n"], f.short)
+            extra = {"props": _m1_props(rel)}
+            # writes that lie on every path to the normal exit happen in every call: what they store is not kept.  The
+            # obligation is about the writes that happen only under a condition.
+            tb = tuple(f.throw_blocks())
+            every = [(w, v) for (w, v) in writes if f.exit not in f.reachable(f.entry, removed_blocks=(f.block_of(w)[0],) + tb)]
+            allw = writes
+            writes = [(w, v) for (w, v) in writes if not any(w is e[0] for e in every)]
+            if not writes:
+                res.add(key, DISCHARGED, where, what, "rewritten by every call (line %d): nothing is kept between calls" % allw[0][0].line,
+                        func=f.name, extra=extra)
+                continue
+            where = "%s:%d" % (rel, writes[0][0].line)
+            dep = set()
+            for (w, vals) in writes:
+                for v in vals:
+                    dep |= {a for a in flow.deps(v) if a[0] in ("parm", "this") and a[1] != "*"}
+            keyat = set()
+            conds = []
+            for (w, _) in writes:
+                bid = f.block_of(w)[0]
+                def _skips(starts):
+                    # the other outcome reaches the normal exit without passing the write: the condition decides whether the
+                    # value is computed again (a loop that merely precedes the write does not)
+                    for st in starts:
+                        if st is not None and st != bid and f.exit in f.reachable(st, removed_blocks=(bid,)):
+                            return True
+                    return False
+                for (b, si, s, cn, pol) in f.branch_edges():
+                    if s is None:
+                        continue
+                    if bid not in f.reachable(f.entry, removed_edges=[(b.id, si)]) and _skips([b.succs[1 - si]]):
+                        conds.append(cn)
+                        keyat |= _m1_key_atoms(f, cn, d.get("id"), defs, set())
+                for (edges, cn, pol, others, stmt) in f.compound_groups():
+                    if bid not in f.reachable(f.entry, removed_edges=list(edges)) and not any(c.id == cn.id for c in conds) \
+                            and _skips(list(others)):
+                        conds.append(cn)
+                        keyat |= _m1_key_atoms(f, cn, d.get("id"), defs, set())
+            # a conditional expression / short-circuit operand the write sits in
+            missing = []
+            for a in sorted(dep):
+                if a[0] == "parm":
+                    if a[2] == "val" and not any(k[0] == "parm" and k[1] == a[1] for k in keyat):
+                        missing.append("the argument %s" % a[1])
+                    elif a[2] == "size" and not any(k[0] == "parm" and k[1] == a[1] for k in keyat):
+                        missing.append("the length of %s" % a[1])
+                    elif a[2] == "content" and ("parm", a[1], "content") not in keyat:
+                        missing.append("the contents of %s" % a[1])
+                elif a[0] == "this" and not any(k[0] == "this" and k[1] == a[1] for k in keyat):
+                    missing.append("the member %s" % a[1])
+            # "the length of x" is implied when the contents are missing as well
+            names = {m.split()[-1] for m in missing if m.startswith("the contents")}
+            missing = [m for m in missing if not (m.startswith("the length of") and m.split()[-1] in names)]
+            if not conds:
+                res.add(key, UNMODELLED, where, what, "the write of the kept object is neither on every path nor under a recognised condition",
+                        func=f.name, extra=extra)
+            elif missing:
+                res.add(key, VIOLATED, where, what,
+                        "%s is computed from %s (line %d) but computed again only under %s, which %s: a later call that differs only there "
+                        "is answered with the value kept from the earlier call"
+                        % (d["n"], ", ".join(missing), writes[0][0].line, " / ".join(sorted({c.text()[:60] for c in conds}))[:200],
+                           "does not mention it" if len(missing) == 1 else "mentions none of them"), func=f.name, extra=extra)
+            else:
+                res.add(key, DISCHARGED, where, what, "every argument the kept value depends on (%s) is mentioned by the condition that "
+                        "refreshes it" % (", ".join(sorted({a[1] for a in dep})) or "none"), func=f.name, extra=extra)
+    res.stats["keeping_functions"] = nfun
     return res
